@@ -98,6 +98,10 @@ class Clock(object):
 
 
 def fake_select(r, w, x, timeout=None):
+    for s in r:
+        if s.closed:
+            # what select() does with a closed socket (fileno() is -1)
+            raise ValueError('file descriptor cannot be a negative integer (-1)')
     return ([s for s in r if s.readable()], [], [])
 
 
